@@ -110,6 +110,30 @@ theorem keysPrinted_mapKeys (f : Key → Key) (g : HashKind → Nat → Nat) (d 
       simp [List.flatMap_cons, Ms.keys, keysPre_mapKeys, ih]
   | _ => simp [Desc.mapKeys, Desc.keysPrinted, Ms.keys, keysPre_mapKeys]
 
+/-! ### `for_each_key` -/
+
+theorem forEachKey_eq (pred : Key → Bool) (ms : Ms) : forEachKey pred ms = allVisit pred ms.keys := by
+  unfold forEachKey Ms.keys
+  rw [preOrder_eq_pre, forEachKeyLoop_eq]
+
+theorem trLeavesForEach_eq (pred : Key → Bool) : (ls : List (Nat × Ms)) →
+    trLeavesForEach pred ls = allVisit pred (ls.flatMap fun l => l.2.keys)
+  | [] => rfl
+  | (d, m) :: ls => by
+    simp only [trLeavesForEach, forEachKey_eq, List.flatMap_cons, allVisit_append,
+      trLeavesForEach_eq pred ls]
+
+theorem allVisit_single (pred : Key → Bool) (k : Key) : allVisit pred [k] = ([k], pred k) := by
+  cases h : pred k <;> simp [allVisit, h]
+
+theorem descForEachKey_eq (pred : Key → Bool) (d : Desc) :
+    descForEachKey pred d = allVisit pred d.keysForEach := by
+  cases d with
+  | sh inner => cases inner <;> simp [descForEachKey, Desc.keysForEach, forEachKey_eq, allVisit_single]
+  | tr ik leaves =>
+    simp only [descForEachKey, Desc.keysForEach, trLeavesForEach_eq, allVisit_append, allVisit_single]
+  | _ => simp [descForEachKey, Desc.keysForEach, forEachKey_eq, allVisit_single]
+
 /-! ### `iter_pk` -/
 
 theorem optNext_none (o : Option (List Key)) (h : optNext o = none) : o.getD [] = [] := by
